@@ -8,8 +8,8 @@
 
 // Mirror of the Verus deviation switch of the same name (unit.py 'deviations'); the framework cannot hand deviation
 // switches to Kani, so the maintainer flips this constant together with known_findings.txt when the code is repaired.
-const DEV_FORMFEED_NOT_WHITESPACE: bool = true;
-const DEV_NO_PLUS_SIGN: bool = true;
+const DEV_FORMFEED_NOT_WHITESPACE: bool = false; // repaired in /repo (fix: FORM FEED is white-space)
+const DEV_NO_PLUS_SIGN: bool = false; // repaired in /repo (fix: leading plus sign)
 
 // spec: ISO 32000-1 7.2.2 Table 1 (NUL HT LF FF CR SP) / Table 2 (delimiters)
 fn is_ws_iso(b: u8) -> bool { b == 0 || b == 9 || b == 10 || b == 12 || b == 13 || b == 32 }
